@@ -308,9 +308,13 @@ def t3z(cx):
     rr = ev.run(parse_body(ftid[1], typenames))
     ok = rr is not None and rr[0] == "return" and isinstance(rr[1], Poly) and rr[1] == Poly.const(tid) and base + ev.env["offset"] == pol(upos) + Poly.const(8)
     cx.check(ok, None, construct="Big_typeid_u: " + " ".join(strip_comments(ftid[1]).split())[:140], detail=f"member index read from the word after the offset word (= {tid})", bad_detail=f"C typeid evaluates to {rr[1] if rr else None!r} at obj+{ev.env['offset']!r}; Python records {tid} at slot+8", anchor="capi::gen_method_typeid", sub="typeid")
-    ev = CEval(mem, base, {})
+    ev = CEval(mem, base, {}, allow_early=True)
     rr = ev.run(parse_body(fmem[1], typenames))
     ok = base + ev.env["offset"] == pol(mpos)
+    # a conditional exit on a condition the layout does not decide: the member of the zoo is a live object wherever the
+    # allocator put it (before or behind the slot), and for those placements the accessor answers something else
+    for cond, outcome in ev.early:
+        cx.bad(None, construct="Big_member_u: " + " ".join(strip_comments(fmem[1]).split())[:140], detail=f"leaves with {outcome[1]!r} when `{cond}`: the stored word is the member's position RELATIVE to the slot, whose sign depends on where the member was allocated; for a live member on that side the C address is not the one Python resolves (obj+{pol(mpos) - base!r})", anchor="capi::gen_method_member", sub="member")
     cx.check(ok, None, construct="Big_member_u: " + " ".join(strip_comments(fmem[1]).split())[:140], detail="member address = slot + stored relative offset", bad_detail=f"C member address obj+{ev.env['offset']!r}, Python member at obj+{pol(mpos) - base!r}", anchor="capi::gen_method_member", sub="member")
     en = re.search(r"enum U_e\{([^}]*)\}", Z["others"]["U"])
     cx.check(en is not None and en.group(1).split(",") == ["U_T_t", "U_ArrNFloat64_t"], None, construct=f"enum U_e{{{en.group(1) if en else '?'}}}", detail="C member ids enumerate _reftypes in order (same ids as _typeid_from_type)", bad_detail="C enum does not list the members in _reftypes order", anchor="capi::gen_enum", sub="enum")
